@@ -5,6 +5,7 @@ import (
 	"go/constant"
 	"go/token"
 	"go/types"
+	"sort"
 	"strings"
 
 	"golang.org/x/tools/go/ssa"
@@ -694,6 +695,29 @@ func (li *layoutInterp) exec(fn *ssa.Function, st *lpath, in ssa.Instruction) []
 			st.vals[x] = avOpaque{"extract"}
 		}
 	case *ssa.TypeAssert:
+		// a boxed value whose dynamic type is known decides the assertion
+		if ifc, ok := li.eval(st, x.X).(avIface); ok && ifc.typ != nil {
+			match := false
+			var val AV = avOpaque{"typeassert"}
+			if _, toIface := x.AssertedType.Underlying().(*types.Interface); toIface {
+				if it, isI := x.AssertedType.Underlying().(*types.Interface); isI && types.Implements(ifc.typ, it) {
+					match, val = true, ifc
+				}
+			} else if types.Identical(ifc.typ, x.AssertedType) {
+				match, val = true, ifc.inner
+			}
+			if x.CommaOk {
+				if !match {
+					val = li.zeroOf(x.AssertedType, "")
+				}
+				st.vals[x] = avTuple{val, avBool{known: true, val: match}}
+				break
+			}
+			if match {
+				st.vals[x] = val
+				break
+			}
+		}
 		st.vals[x] = avOpaque{"typeassert"}
 	case *ssa.Call:
 		return li.execCall(fn, st, x)
@@ -769,6 +793,19 @@ func (li *layoutInterp) execUnOp(st *lpath, x *ssa.UnOp) {
 						w, signed, _ := typeWidth(x.Type(), li.p.Arch)
 						st.vals[x] = avInt{lin: linConst(k), bv: bvConst(uint64(k), w), signed: signed}
 						return
+					}
+					if v, ok := li.globalStruct(g, nil, x.Type()); ok {
+						st.vals[x] = v
+						return
+					}
+				}
+				// a field of a package-level struct variable
+				if fa, ok := x.X.(*ssa.FieldAddr); ok {
+					if g, ok := fa.X.(*ssa.Global); ok {
+						if v, ok := li.globalStruct(g, []int{fa.Field}, x.Type()); ok {
+							st.vals[x] = v
+							return
+						}
 					}
 				}
 			}
@@ -1955,4 +1992,148 @@ func nilness(v AV) int {
 		}
 	}
 	return -1
+}
+
+// dumpAV renders an abstract value with its aggregate elements and, for
+// addresses of local cells, the cell content (debugging, evidence texts).
+func dumpAV(v AV, st *lpath, depth int) string {
+	if depth > 4 {
+		return "..."
+	}
+	switch x := v.(type) {
+	case avAgg:
+		var ks []string
+		for k := range x.elems {
+			ks = append(ks, k)
+		}
+		sort.Strings(ks)
+		var parts []string
+		for _, k := range ks {
+			parts = append(parts, k+"="+dumpAV(x.elems[k], st, depth+1))
+		}
+		return "{" + strings.Join(parts, ", ") + "}"
+	case avAddr:
+		if x.cell != "" {
+			if m, ok := st.mem[x.cell]; ok {
+				return "&" + x.cell + "->" + dumpAV(m, st, depth+1)
+			}
+			// field cells
+			var ks []string
+			for k := range st.mem {
+				if strings.HasPrefix(k, x.cell+".") {
+					ks = append(ks, k)
+				}
+			}
+			sort.Strings(ks)
+			var parts []string
+			for _, k := range ks {
+				parts = append(parts, k[len(x.cell):]+"="+dumpAV(st.mem[k], st, depth+1))
+			}
+			return "&" + x.cell + "{" + strings.Join(parts, ", ") + "}"
+		}
+	case avTuple:
+		var parts []string
+		for _, e := range x {
+			parts = append(parts, dumpAV(e, st, depth+1))
+		}
+		return "(" + strings.Join(parts, ", ") + ")"
+	case avIface:
+		return "iface[" + fmt.Sprint(x.typ) + "](" + dumpAV(x.inner, st, depth+1) + ")"
+	case avInt:
+		s := ""
+		if x.lin != nil {
+			s = x.lin.String()
+		}
+		if x.bv != nil {
+			s += " bits:" + x.bv.String()
+		}
+		return s
+	}
+	return describeAV(v)
+}
+
+// globalStruct: the value of (a field of) a package-level struct variable
+// that only its package initialiser writes, field by field, with values that
+// evaluate to constants; fields never stored are zero.  sel: at most one field
+// index (nil: the whole struct).
+func (li *layoutInterp) globalStruct(g *ssa.Global, sel []int, t types.Type) (AV, bool) {
+	stT, ok := deref(g.Type()).Underlying().(*types.Struct)
+	if !ok {
+		return nil, false
+	}
+	stores := map[int][]*ssa.Store{}
+	bad := false
+	for _, fn := range li.p.AllFuncs {
+		instrsOf(fn, func(in ssa.Instruction) {
+			switch y := in.(type) {
+			case *ssa.Store:
+				if y.Addr == ssa.Value(g) {
+					bad = true
+				}
+				if fa, ok := y.Addr.(*ssa.FieldAddr); ok && fa.X == ssa.Value(g) {
+					if fn.Name() != "init" || fn.Parent() != nil {
+						bad = true
+					}
+					stores[fa.Field] = append(stores[fa.Field], y)
+				}
+			case *ssa.FieldAddr:
+				// the address of a field escapes (anything but a load or a store through it)
+				if y.X == ssa.Value(g) {
+					for _, r := range *y.Referrers() {
+						switch u := r.(type) {
+						case *ssa.Store:
+							if u.Addr != ssa.Value(y) {
+								bad = true
+							}
+						case *ssa.UnOp:
+						case *ssa.DebugRef:
+						default:
+							bad = true
+						}
+					}
+				}
+			}
+		})
+	}
+	if bad {
+		return nil, false
+	}
+	field := func(i int) (AV, bool) {
+		f := stT.Field(i)
+		switch len(stores[i]) {
+		case 0:
+			z := li.zeroOf(f.Type(), "")
+			if _, isOp := z.(avOpaque); isOp {
+				if _, isIf := f.Type().Underlying().(*types.Interface); isIf {
+					return avOpaque{"nil"}, true
+				}
+				return nil, false
+			}
+			return z, true
+		case 1:
+			ev := &BitEval{P: li.p, Env: map[ssa.Value]BV{}}
+			alts := ev.Eval(stores[i][0].Val)
+			if len(alts) == 1 && alts[0].V != nil {
+				if k, ok := alts[0].V.Const(); ok {
+					w, signed, okw := typeWidth(f.Type(), li.p.Arch)
+					if okw {
+						return avInt{lin: linConst(int64(k)), bv: bvConst(k, w), signed: signed}, true
+					}
+				}
+			}
+		}
+		return nil, false
+	}
+	if len(sel) == 1 {
+		return field(sel[0])
+	}
+	ag := avAgg{elems: map[string]AV{}}
+	for i := 0; i < stT.NumFields(); i++ {
+		v, ok := field(i)
+		if !ok {
+			return nil, false
+		}
+		ag.elems["."+stT.Field(i).Name()] = v
+	}
+	return ag, true
 }
